@@ -3,10 +3,36 @@
 package verifharness
 
 import (
+	"bytes"
 	"testing"
 
 	"github.com/protolambda/ztyp/tree"
 )
+
+// watchedFlatRoot hashes a flat value with a hash function that looks at the value every time it
+// is called: the helpers only read their input, so its encoding is the same at every moment of
+// the computation (stable=1) - also in the middle of it, where another reader of the same bytes
+// would see it.
+func watchedFlatRoot(f Flat, h tree.HashFn) string {
+	before, err := flatEncode(f)
+	if err != nil {
+		return "root=" + rootHex(f.HashTreeRoot(h))
+	}
+	stable := true
+	look := func() {
+		now, err := flatEncode(f)
+		if err != nil || !bytes.Equal(now, before) {
+			stable = false
+		}
+	}
+	hw := tree.HashFn(func(a, b tree.Root) tree.Root {
+		look()
+		return h(a, b)
+	})
+	r := f.HashTreeRoot(hw)
+	look()
+	return "root=" + rootHex(r) + " stable=" + b01(stable)
+}
 
 func TestC08(t *testing.T) {
 	out := openOut(t, "C08")
@@ -70,7 +96,7 @@ func TestC08(t *testing.T) {
 			for k := 0; k < n; k++ {
 				ty := g.ty(1 + g.r.Intn(3))
 				v := g.val(ty)
-				obs := guard(func() string { return "root=" + rootHex(flatOf(ty, v).HashTreeRoot(h)) })
+				obs := guard(func() string { return watchedFlatRoot(flatOf(ty, v), h) })
 				if obs == "PANIC" {
 					obs = "root=PANIC"
 				}
